@@ -13,7 +13,8 @@
    correspondence check, not proved: C05 is `partial` in that sense (DESIGN.md section 10). *)
 From Coq Require Import List NArith Permutation.
 From DesVerif Require Import Timer.Driver Timer.QueueLemmas Timer.Inv Timer.Exact Timer.Futures Timer.FutureLaws Timer.Model Timer.Compose
-  Timer.Frag Timer.E2EInv Timer.E2ELoop Timer.E2EInit Timer.Fresh.
+  Timer.Frag Timer.E2EInv Timer.E2ELoop Timer.E2EInit Timer.Fresh Timer.ModelCq Timer.OverCq Timer.OverCqProps.
+From DesVerif Require CQueue.Model.
 Import ListNotations.
 Open Scope N_scope.
 
@@ -372,6 +373,54 @@ Theorem C05_fragment_scripts_decode_ok : forall input,
 Proof. exact decode_init_ok. Qed.
 Print Assumptions C05_fragment_scripts_decode_ok.
 
+(* COMPOSITION WITH C01.  The composite model above (Timer/Model.v) takes the fetch order from
+   C01's event-set SPECIFICATION; the real crate runs on the calendar queue.  Timer/ModelCq.v is
+   the same model with the concrete calendar queue of C01 (CQueue.Model.cq: buckets, head, t0/t1
+   window; cq_new_at n t 0, add, fetch_next, qlen = 0 for "no event pending") in place of the
+   specification; tasks, futures, executor, drivers, waker table and channels are shared.  By
+   forward simulation over C01's refinement relation R (Timer/OverCq.v; R_new_at, R_add,
+   R_fetch, R_len) both models print the same output for EVERY script line and every
+   parameterisation n, t >= 1 of the queue (Builder::cqueue_options).  (R_add asks for adds at
+   or after the set's clock; an add before the clock is rejected by both sets alike, so no
+   hypothesis on the script is needed; inside the proved fragment there is no such add.) *)
+Theorem C05_run_over_cqueue_eq_run_over_spec : forall n t script, n <> 0 -> t <> 0 -> run_cq n t script = run script.
+Proof. intros n t script Hn Ht. exact (run_cq_eq_run n t script Hn Ht). Qed.
+Print Assumptions C05_run_over_cqueue_eq_run_over_spec.
+
+(* ... so the end-to-end theorems hold of the run over the calendar queue: for the whole proved
+   fragment (sleep, sleep_until, log, reset / drop, timeout over a sleep, select over two sleeps,
+   interval, keep-alive select, and with channels timeout over a receive: chan_ok), for every
+   n, t >= 1, the run over the calendar queue ends, every task has finished and has logged
+   exactly exp_run *)
+Theorem C05_composite_exact_cq : forall n t ts, n <> 0 -> t <> 0 -> chan_ok ts ->
+  exists cw, run_tasks_cq true n t ts = (cw, true) /\
+    Forall2 (fun tk0 tk => t_fin tk = true /\ t_log tk = exp_run (t_start tk0) None (arrivals ts (t_mod tk0)) (t_steps tk0))
+            ts (w_tasks (c_w cw)).
+Proof. exact composite_exact_cq. Qed.
+Print Assumptions C05_composite_exact_cq.
+
+(* ... in the form of C05_composite_sleep_exact (scripts without channels) *)
+Theorem C05_composite_sleep_exact_cq : forall n t ts, n <> 0 -> t <> 0 -> Forall init_ok ts ->
+  exists cw, run_tasks_cq true n t ts = (cw, true) /\
+    Forall2 (fun tk0 tk => t_fin tk = true /\ t_log tk = exp_run (t_start tk0) None noarr (t_steps tk0)) ts (w_tasks (c_w cw)).
+Proof. exact composite_sleep_exact_cq. Qed.
+Print Assumptions C05_composite_sleep_exact_cq.
+
+(* C05_woken_exactly_at_deadline for the run over the calendar queue (proved fragment): in the
+   state the run is in after any number k of iterations of the main loop, whenever the
+   calendar queue hands out the next event -- payload pay (0 / 1: the AsyncWakeupEvent of module
+   0 / 1; 2 + j: the message that spawns task j), stamped te -- every slot WITH a timer that the
+   activation of that event pops from its module's driver has the deadline d = te: no timer is
+   woken by an event other than the one at exactly its deadline *)
+Theorem C05_woken_exactly_at_deadline_cq : forall n t ts, n <> 0 -> t <> 0 -> chan_ok ts -> forall k,
+  let cw := state_of (Common.Fuel.iter_nat k (loop_step_cq true) (sim_start_cq true (init_world_cq n t ts))) in
+  forall q' pay te, CQueue.Model.fetch_next (c_q cw) = (q', CQueue.Model.OFetched pay te) ->
+  forall m fire, ev_module pay (w_tasks (c_w cw)) m fire ->
+  forall d es, In (d, es) (fst (activate te (if fire then sched_fire te (drv_of (c_w cw) m) else drv_of (c_w cw) m))) ->
+               es <> [] -> d = te.
+Proof. exact woken_exactly_at_deadline_cq. Qed.
+Print Assumptions C05_woken_exactly_at_deadline_cq.
+
 (* The premise under the removal-by-id arguments: TimerSlot::remove(id) takes the FIRST entry
    with that id.  If the ids of a slot are pairwise distinct this is exactly the entry of the
    Sleep that asks (it is gone afterwards, every other entry stays, distinctness is kept);
@@ -655,3 +704,13 @@ Example C05_nonvacuous_timeout_recv :
 Proof.
   cbn zeta. split; [apply decode_chan_okb; vm_compute; reflexivity|]. vm_compute. repeat split; reflexivity.
 Qed.
+
+(* the model over the calendar queue runs: 3 buckets of width 7 ns, the script of the timeout-over-receive
+   example -- the same output as over the specification, the task logs included *)
+Example C05_nonvacuous_run_over_cqueue :
+  let script := [1; 4; 16; 0; 0; 1; 5; 9; 0; 0; 1; 10; 9; 0; 0; 8; 9; 1; 0;
+                 19; 0; 0; 11; 8; 0; 11; 3; 0; 1; 10; 11; 0; 0; 11; 4; 1; 11; 2; 1;
+                 7; 1; 3; 11; 4; 0; 1; 1;   8; 1; 0; 1; 20; 9; 0; 0; 8] in
+  run_cq 3 7 script = run script /\
+  firstn 33 (run_cq 3 7 script) = [6; 5; 5; 15; 15; 15; 15; 1;  11; 5; 1; 8; 0; 18; 18; 1; 18; 1; 20; 0; 1;  3; 7; 0; 8; 1;  3; 20; 20; 20; 1;  1; 20].
+Proof. cbn zeta. split; vm_compute; reflexivity. Qed.
